@@ -19,7 +19,7 @@ var c02Pool = []string{
 	"/u/{name}", "/u/{name}/posts/{id: /[0-9]+/}", "/f/{y: /[0-9]{4}/}-{m: /[0-9]{2}/}", "/g/{a: /(x)(y)/}-{b: /z+/}",
 	"/v{maj: /[0-9]+/}.{min: /[0-9]+/}", "/a(b){id}", "/s/{p: **}", "/s/{p: **}/end", "/t/{p: **, capture: 2}/end", "/o/?{opt}",
 	"/o2/{k}/?{opt: /[a-z]+/}", "/w/{a: /(a|b)+/}/{c}", "/r/{ver: /v[0-9]+(\\.[0-9]+(\\.[0-9]+)?)?/}-{os: /linux|darwin/}", "/q/{a: /x+/, b: /y+/}-{c}",
-	"/{**}", "/dot.txt", "/e/{x}.{ext: /(txt|md)?/}",
+	"/{**}", "/dot.txt", "/own/{owner}/{paths: **}/blob/{owner}", "/rp/{id: /[0-9]+/}/commits/{id}", "/e/{x}.{ext: /(txt|md)?/}",
 }
 
 func c02Paths() []string {
@@ -29,7 +29,7 @@ func c02Paths() []string {
 		"/t/1/end", "/t/1/2/end", "/t/1/2/3/end", "/o", "/o/", "/o/k", "/o2/k", "/o2/k/abc", "/o2/k/ABC", "/w/ab/c", "/w/abc/c", "/w/a/",
 		"/r/v1.2.3-linux", "/r/v1-darwin", "/r/v1.2-bsd", "/q/xxyy-c", "/q/xy-", "/dot.txt", "/dotxtxt", "/e/f.txt", "/e/f.", "/e/a.b.md",
 		"//u/joe", "/u/joe/", "/zz/top", "/s/%2F/end", "/e/%41.md",
-		"/e/%2541.md", "/f/2024-%30%35", "/w/%61b/c", "/u/joe/posts/%31", "/v%31.2", "/q/x%78yy-c", "/e/%25.txt",
+		"/own/alice/src/lib/blob/bob", "/rp/12/commits/ab", "/e/%2541.md", "/f/2024-%30%35", "/w/%61b/c", "/u/joe/posts/%31", "/v%31.2", "/q/x%78yy-c", "/e/%25.txt",
 	}
 }
 
